@@ -15,7 +15,8 @@ PROP = {
     "assumptions": ["TW.step describes render/trimwriter.go: checked by the tw stream on every run",
                     "the erasure and adjacency laws are stated for writes that are valid UTF-8 (ValidOps); on invalid "
                     "bytes the erasure law is false (theorem tw_erasure_fails_on_invalid_utf8) and only "
-                    "tw_no_trim_identity / tw_trimRight_empty_write / tw_trimRight_persists apply"],
+                    "tw_no_trim_identity / tw_trimLeft_sees_last_write_only(_flag) / tw_buffer_is_last_write / "
+                    "tw_trimRight_empty_write / tw_trimRight_persists apply"],
 }
 
 TEXT = {
@@ -25,14 +26,21 @@ TEXT = {
             "(trim_subseq, trim_sublist), both agree after deleting all whitespace (trim_only_ws), a list without trims "
             "outputs the concatenation of its writes (no_trim_identity, erased_output_is_concat); a TrimLeft directly "
             "after / TrimRight directly before the write of a text acts as the write of the right-/left-stripped text "
-            "(trimLeft_adjacent, trimRight_adjacent, and the exact behaviour of blank or empty texts, of a pending flag, "
-            "of the empty write that consumes the flag, and of a TrimRight persisting across TrimLeft/Flush: "
-            "trimLeft_adjacent_noflag/_ws, trimRight_adjacent_flag/_ws, trimRight_empty_write, trimRight_persists_*). "
+            "for EVERY text at EVERY position, blank or empty text and a pending flag included "
+            "(trimLeft_adjacent_all, trimRight_adjacent_all, trim_both_adjacent; special cases trimLeft_adjacent, "
+            "trimRight_adjacent, trimLeft_adjacent_noflag, trimRight_adjacent_flag; blank text next to a hyphen is "
+            "deleted and nothing else is: trimLeft_adjacent_ws, trimRight_adjacent_ws; an empty write flushes and "
+            "clears the flag: empty_write_is_flush, trimRight_empty_write; a TrimRight persists across TrimLeft/Flush: "
+            "trimRight_persists_*). The repaired Write (2593661: always flush first) is expressed by "
+            "trimLeft_sees_last_write_only(_flag), trimLeft_keeps_earlier_write, write_commits_previous and "
+            "buffer_is_last_write: a TrimLeft never touches an earlier write, also when blank text stands between "
+            "two hyphens. "
             "Part B, bridge to the byte-level model TW.step for valid UTF-8: decode/encode round trip, "
             "bytes.TrimLeftFunc/TrimRightFunc(unicode.IsSpace) on encoded runes (tw_trimLeftSpace_encode, "
             "tw_trimRightSpace_encode, through utf8.DecodeLastRune), step-by-step simulation (tw_step_encode, "
             "tw_runOps_encode), hence all laws on bytes (tw_trim_only_ws, tw_trim_subseq, tw_trim_valid_sublist, "
-            "tw_trimLeft_adjacent*, tw_trimRight_adjacent*); tw_no_trim_identity holds for all bytes; "
+            "tw_trimLeft_adjacent*, tw_trimRight_adjacent*); tw_no_trim_identity, tw_trimLeft_sees_last_write_only(_flag), "
+            "tw_buffer_is_last_write, tw_trimRight_empty_write and tw_trimRight_persists hold for all bytes; "
             "tw_erasure_fails_on_invalid_utf8 shows the UTF-8 hypothesis is necessary. Part C: the output is the "
             "concatenation of the underlying write calls, one call at most per operation, only TrimLeft can issue an "
             "empty call. Each run compares TW.step with the real trimWriter call by call and evaluates on the real "
